@@ -66,6 +66,37 @@ func streamScore(thorough bool, filter []string) {
 		for i := 0; i < nRand; i++ {
 			v.opScore(v.randomWF())
 		}
+		// (c') the same scores reached through a history on ONE object: score a start object, Set every metric to the
+		// target's value (scoring again half-way), score — state that a scoring method leaves behind in its receiver
+		// (a pointer receiver, a spare bit) shows here and nowhere else. Start objects: random, and the all-None/all-High corners.
+		for i := 0; i < nRand/4; i++ {
+			b := v.randomWF()
+			a0 := v.randomWF()
+			switch i % 4 {
+			case 1, 2:
+				// the target with 1..4 metrics changed
+				a0 = b
+				for k := 0; k <= rng.Intn(4); k++ {
+					mt := pick(v.metrics)
+					if nb, err := v.set(a0, mt.abv, pick(mt.values)); err == nil {
+						a0 = nb
+					}
+				}
+			case 3:
+				// the target with every metric that has a value `N` set to it (no impact at all: the early-exit paths)
+				a0 = b
+				for _, mt := range v.metrics {
+					for _, val := range mt.values {
+						if val == "N" {
+							if nb, err := v.set(a0, mt.abv, "N"); err == nil {
+								a0 = nb
+							}
+						}
+					}
+				}
+			}
+			v.opScoreHist(a0, b)
+		}
 		for i := 0; i < nRand/20; i++ {
 			b := make([]byte, v.n)
 			rng.Read(b)
